@@ -66,6 +66,7 @@ func runImpl(c *Case) Outcome {
 	var spies []Ev
 	count := 0
 	var o Outcome
+	lastEngine = nil
 	res := guarded(func() (string, error) {
 		e := twig.New()
 		if c.Policy != nil {
@@ -140,6 +141,7 @@ func runImpl(c *Case) Outcome {
 			}
 		}
 		ctx, _ := deepCopy(map[string]interface{}(c.Ctx)).(map[string]interface{})
+		lastEngine = e
 		return e.Render(c.Main, ctx)
 	})
 	o.Out, o.Class, o.Panic, o.Spies = res.Out, mapClass(res.Class), res.Panic, spies
@@ -306,6 +308,8 @@ func compareCase(e *Env, c *Case, key, broken string) (im Outcome, mo Outcome, o
 	}
 	im = runImpl(c)
 	checkRetained(e, im.Out)
+	sentinelCheck(e)
+	rerenderRetained(e, c, im)
 	if im.Class == "panic" || im.Class == "timeout" {
 		e.Rep.Violate(Violation{Key: "panic-or-hang", What: fmt.Sprintf("rendering %s: %s", im.Class, truncate(im.Panic, 200)),
 			Broken: "C05: no template source or context value makes the engine panic or hang", Replay: c.replay(im, Outcome{})})
@@ -418,6 +422,105 @@ func checkRetained(e *Env, out string) {
 			retainRing = retainRing[1:]
 		}
 	}
+}
+
+// The sentinel engine is created once per harness run and holds templates that use every operator spelling, blocks,
+// macros, includes and whitespace control. It is rendered again and again while thousands of other templates are
+// parsed and rendered on other engines: what it renders must never change (parsed templates own their strings,
+// nodes and tables; nothing a later parse does may reach into them).
+var sentinel struct {
+	eng  *twig.Engine
+	want map[string]string
+	tick int
+}
+
+var sentinelCtx = map[string]interface{}{"t": true, "u": true, "f": false, "n": 3, "xs": []interface{}{1, 2}, "name": "<n>"}
+
+func sentinelRender(name string) string {
+	res := guarded(func() (string, error) { return sentinel.eng.Render(name, sentinelCtx) })
+	if res.Err != nil {
+		return "<" + res.Class + ": " + res.Err.Error() + ">"
+	}
+	return res.Class + res.Out
+}
+
+func sentinelCheck(e *Env) {
+	if sentinel.eng == nil {
+		sentinel.eng = twig.New()
+		tpls := map[string]string{
+			"s_ops":   "{% if t && u %}A{% endif %}{% if f or t %}B{% endif %}{{ n >= 2 }}{{ n <= 2 }}{{ n != 2 }}{{ n == 3 }}{{ 'a' ~ 'b' }}{{ t and u }}{{ f or t }}{{ not f }}{{ 1 in xs }}{{ 5 not in xs }}{{ 'ab' starts with 'a' }}{{ 'ab' ends with 'b' }}{{ n is odd }}{{ n is not even }}{{ name|e }}{{ t ? 'y' : 'n' }}{{ xs|length > 1 && n < 9 }}",
+			"s_base":  "<{% block content %}base{% endblock %}|{% block main %}m{% endblock %}>",
+			"s_child": "{% extends 's_base' %}{% block content %}[{{ parent() }}]{% endblock %}",
+			"s_macro": "{% macro input(x, y = 2) %}I{{ x }}{{ y }}{% endmacro %}{% macro field(z) %}F{{ z }}{% endmacro %}{{ input(1) }}{{ _self.field(n) }}{% import 's_lib' as lib %}{{ lib.input('q') }}",
+			"s_lib":   "{% macro input(a) %}L{{ a }}{% endmacro %}",
+			"s_ws":    " a {{- n -}} b {%- if t -%} c {%- endif %} d {#- x -#} e ",
+			"s_inc":   "{% for i in xs %}{% include 's_part' with {'k': i} %}{% endfor %}",
+			"s_part":  "({{ k }}{{ n }})",
+		}
+		sentinel.want = map[string]string{}
+		for _, n := range sortedKeys(tpls) {
+			if err := sentinel.eng.RegisterString(n, tpls[n]); err != nil {
+				sentinel.want[n] = "<register: " + err.Error() + ">"
+			}
+		}
+		for _, n := range sortedKeys(tpls) {
+			if _, bad := sentinel.want[n]; !bad {
+				sentinel.want[n] = sentinelRender(n)
+			}
+		}
+		return
+	}
+	sentinel.tick++
+	if sentinel.tick%7 != 0 {
+		return
+	}
+	e.Rep.Hit("sentinel-engine-rerendered")
+	for _, n := range sortedKeys(sentinel.want) {
+		if strings.HasPrefix(sentinel.want[n], "<register") {
+			continue
+		}
+		if got := sentinelRender(n); got != sentinel.want[n] {
+			e.Rep.Violate(Violation{Key: "earlier-template-changed", What: fmt.Sprintf("template %q of an engine created at the start of the run rendered %q then and renders %q now, after %d other templates were parsed and rendered on other engines", n, truncate(sentinel.want[n], 120), truncate(got, 160), sentinel.tick),
+				Broken: "theorem C01_history_independence (a registered template renders the same whatever is parsed or rendered later; implementation-only oracle)",
+				Replay: map[string]any{"kind": "sentinel", "template": n, "first": sentinel.want[n], "now": got, "cases_since": sentinel.tick}})
+			sentinel.want[n] = got // report once
+		}
+	}
+}
+
+// Every case's engine is kept for a few cases and then rendered once more with the same context: a registered
+// template renders the same whatever was parsed and rendered in between (on other engines, failing or not).
+var lastEngine *twig.Engine
+
+type retainedEngine struct {
+	eng  *twig.Engine
+	c    *Case
+	want Outcome
+}
+
+var engineRing []retainedEngine
+
+func rerenderRetained(e *Env, c *Case, im Outcome) {
+	if len(engineRing) >= 5 {
+		old := engineRing[0]
+		engineRing = engineRing[1:]
+		res := guarded(func() (string, error) {
+			ctx, _ := deepCopy(map[string]interface{}(old.c.Ctx)).(map[string]interface{})
+			return old.eng.Render(old.c.Main, ctx)
+		})
+		e.Rep.Hit("engine-rerendered-later")
+		if mapClass(res.Class) != old.want.Class || res.Out != old.want.Out {
+			rp := old.c.replay(old.want, Outcome{Out: res.Out, Class: mapClass(res.Class)})
+			rp["kind"] = "rerender"
+			e.Rep.Violate(Violation{Key: "earlier-template-changed", What: fmt.Sprintf("an engine rendered %q (%s); five other cases later the same Render on the same engine gives %q (%s %s)", truncate(old.want.Out, 120), old.want.Class, truncate(res.Out, 120), res.Class, truncate(fmt.Sprint(res.Err), 100)),
+				Broken: "theorem C01_history_independence (a registered template renders the same whatever is parsed or rendered later; implementation-only oracle)", Replay: rp})
+		}
+	}
+	// only cases whose callbacks are stateless (a fault position counts invocations across renders) and that terminated
+	if c.FailAt < 0 && im.Class != "panic" && im.Class != "timeout" && lastEngine != nil && len(c.SpyFilters)+len(c.SpyFunctions)+len(c.SpyTests) == 0 {
+		engineRing = append(engineRing, retainedEngine{lastEngine, c, im})
+	}
+	lastEngine = nil
 }
 
 func describeCase(c *Case) map[string]any {
